@@ -16,13 +16,8 @@ import (
 	"os/exec"
 	"path/filepath"
 	"regexp"
-	"sort"
 	"strings"
-	"sync"
 	"time"
-
-	"verif/internal/ev"
-	"verif/internal/wgen"
 )
 
 type progSpec struct {
@@ -193,12 +188,10 @@ func (s progSpec) compatible() bool {
 	return true
 }
 
-func (s progSpec) text() string {
+// methodText is the method under test, its name spelled MNAME.
+func (s progSpec) methodText() string {
 	var b strings.Builder
-	b.WriteString(pHelpers)
-	b.WriteString(pStructs[s.sv].decl)
-	b.WriteString("\n")
-	fmt.Fprintf(&b, "%s func foo.m%s(%s)", pVis[s.vis], pEff[s.eff], pPars[s.par].decl)
+	fmt.Fprintf(&b, "%s func foo.MNAME%s(%s)", pVis[s.vis], pEff[s.eff], pPars[s.par].decl)
 	if pRets[s.ret].typ != "" {
 		b.WriteString(" " + pRets[s.ret].typ)
 	}
@@ -363,7 +356,7 @@ const progChunk = 256
 func (u *unit) enumProg(e *env, yield func(in *input) bool) {
 	for i := u.lo; i < u.hi; i++ {
 		s := e.progs[i]
-		if !yield(&input{text: []byte(s.text()), desc: func() string { return "generated program: " + s.describe() }}) {
+		if !yield(&input{text: []byte(s.text()), desc: func() string { return "generated program: " + s.desc }}) {
 			return
 		}
 	}
@@ -374,6 +367,7 @@ func (u *unit) enumProg(e *env, yield func(in *input) bool) {
 type progStats struct {
 	generated, accepted, genOK, genErr, gccOK, gccBad int64
 	genRuns, gccRuns, gccChecked                      int64
+	genCrash, packs, singleReruns, packDisagreements  int64
 	complete                                          bool
 	samples                                           []string
 	diagClasses                                       map[string]int64
@@ -397,7 +391,8 @@ func gccClass(msg string) string {
 		return "T"
 	})
 	msg = reExpected.ReplaceAllString(msg, "but T was expected")
-	if i := strings.Index(msg, "; did you mean"); i >= 0 { // the suggestion depends on the gcc version
+	msg = strings.NewReplacer("__sat_add'", "__sat_OP'", "__sat_sub'", "__sat_OP'").Replace(msg) // one code path for ~sat+ and ~sat-
+	if i := strings.Index(msg, "; did you mean"); i >= 0 {                                       // the suggestion depends on the gcc version
 		j := strings.Index(msg[i:], "?")
 		if j >= 0 {
 			msg = msg[:i] + msg[i+j+1:]
@@ -434,237 +429,6 @@ func runCmd(timeout time.Duration, dir string, env []string, name string, args .
 var gccFlags = []string{"-fsyntax-only", "-Wall", "-Werror=implicit"}
 
 func pkgName(i int) string { return fmt.Sprintf("p%05d", i) }
-
-func runPrograms(r *ev.Run, scratch string, c *coordinator) *progStats {
-	st := &progStats{diagClasses: map[string]int64{}, features: map[string]int64{}}
-	e := c.e
-	st.generated = int64(len(e.progs))
-	var accepted []int
-	c.mu.Lock()
-	for i, ok := range c.progAccepted {
-		if ok {
-			accepted = append(accepted, i)
-		}
-	}
-	progUnitsDone := c.doneKind["prog"]
-	c.mu.Unlock()
-	sort.Ints(accepted)
-	st.accepted = int64(len(accepted))
-	if v, _, _, _ := runCmd(10*time.Second, "/", nil, "gcc", "-dumpfullversion"); len(v) > 0 {
-		st.gccVersion = strings.TrimSpace(string(v))
-	}
-
-	binDir, err := wgen.BuildTools(scratch)
-	if err != nil {
-		ev.Fatal("building the tools: %v", err)
-	}
-	wc := filepath.Join(binDir, "wuffs-c")
-	dir := filepath.Join(scratch, "progs")
-	os.MkdirAll(dir, 0o755)
-	base, berr, err, _ := runCmd(2*time.Minute, dir, nil, wc, "gen", "-package_name", "base")
-	if err != nil {
-		ev.Fatal("wuffs-c gen -package_name base: %v\n%s", err, berr)
-	}
-	os.WriteFile(filepath.Join(dir, "wuffs-base.c"), base, 0o644)
-
-	// gen, in parallel
-	type genRes struct {
-		ok      bool
-		errText string
-	}
-	results := make([]genRes, len(accepted))
-	var mu sync.Mutex
-	ev.ParFor(len(accepted), func(_, k int) {
-		if r.Expired() {
-			return
-		}
-		i := accepted[k]
-		s := e.progs[i]
-		name := pkgName(i)
-		src := filepath.Join(dir, name+".wuffs")
-		os.WriteFile(src, []byte(s.text()), 0o644)
-		out, serr, err, timedOut := runCmd(3*time.Minute, dir, nil, wc, "gen", "-package_name", name, src)
-		mu.Lock()
-		defer mu.Unlock()
-		st.genRuns++
-		w := map[string]any{"kind": "program", "program": s.describe(), "source": s.text(), "package_name": name}
-		switch {
-		case timedOut:
-			c.addFinding("hang:gen@wuffs-c", "wuffs-c gen did not finish within 180 s on an accepted program: "+s.describe(), int64(i), w)
-		case err == nil:
-			results[k].ok = true
-			st.genOK++
-			os.WriteFile(filepath.Join(dir, name+".c"), out, 0o644)
-		default:
-			es := string(serr)
-			if strings.Contains(es, "panic: ") || strings.Contains(es, "fatal error: ") || strings.Contains(es, "goroutine ") {
-				msg, where := classifyDeath(es, err)
-				w["stderr_head"] = firstLines(es, 14)
-				c.addFinding(fmt.Sprintf("gen:%s@%s", msg, where),
-					fmt.Sprintf("wuffs-c gen crashed on a program that check.Check accepts: %s (innermost wuffs frame %s); program: %s", msg, where, s.describe()), int64(i), w)
-			} else {
-				st.genErr++
-				st.diagClasses["gen error: "+classOf("gen", fmt.Errorf("%s", strings.TrimSpace(firstLines(es, 1))))]++
-			}
-		}
-	})
-
-	// the generated base code on its own (it holds generated interface methods too)
-	{
-		os.WriteFile(filepath.Join(dir, "baseonly.c"), []byte("#define WUFFS_IMPLEMENTATION\n#include \"./wuffs-base.c\"\n"), 0o644)
-		_, serr, err, _ := runCmd(10*time.Minute, dir, []string{"LC_ALL=C"}, "gcc", append(append([]string{}, gccFlags...), filepath.Join(dir, "baseonly.c"))...)
-		st.gccRuns++
-		st.gccChecked++
-		if err != nil {
-			cls, first := "gcc failed without a diagnostic", firstLines(string(serr), 6)
-			if m := reGccDiag.FindStringSubmatch(string(serr)); m != nil {
-				cls, first = gccClass(m[5]), m[0]
-			}
-			st.diagClasses["gcc: "+cls+" (base package)"]++
-			c.addFinding("gcc:"+cls+":base-package", "gcc rejects the freshly generated base code (wuffs-c gen -package_name base): "+first, -1,
-				map[string]any{"kind": "program", "program": "the base package", "package_name": "base", "gcc": first})
-			st.complete = false
-			return st
-		}
-	}
-
-	// self-check: gcc must see the implementation section of every package in a batch
-	var okIdx []int
-	for k, g := range results {
-		if g.ok {
-			okIdx = append(okIdx, accepted[k])
-		}
-	}
-	if len(okIdx) >= 2 {
-		good, _ := os.ReadFile(filepath.Join(dir, pkgName(okIdx[1])+".c"))
-		bad := bytes.Replace(good, []byte("  if (!self) {"), []byte("  if (!self_canary_undeclared) {"), 1)
-		if bytes.Equal(good, bad) {
-			bad = append(append([]byte{}, good...), "\nint canary_fn(void) { return canary_undeclared; }\n"...)
-		}
-		os.WriteFile(filepath.Join(dir, "canary.c"), bad, 0o644)
-		okc, diag := compileBatch(dir, "canarybatch", []string{pkgName(okIdx[0]), "canary"}, map[string]string{"canary": strings.ToUpper(pkgName(okIdx[1]))})
-		if okc || !strings.Contains(diag, "canary") {
-			ev.Fatal("gcc self-check: a deliberately broken second package in a batch was not rejected:\n%s", firstLines(diag, 10))
-		}
-	}
-
-	// gcc in batches; on failure attribute by file name, drop the culprits and retry; bisect if attribution fails
-	const batch = 48
-	var batches [][]int
-	for a := 0; a < len(okIdx); a += batch {
-		b := a + batch
-		if b > len(okIdx) {
-			b = len(okIdx)
-		}
-		batches = append(batches, okIdx[a:b])
-	}
-	completed := int64(0)
-	ev.ParFor(len(batches), func(_, bi int) {
-		if r.Expired() {
-			return
-		}
-		var rejected map[int]string
-		rejected = map[int]string{}
-		var work func(ids []int, tag string)
-		work = func(ids []int, tag string) {
-			if len(ids) == 0 {
-				return
-			}
-			names := make([]string, len(ids))
-			for k, i := range ids {
-				names[k] = pkgName(i)
-			}
-			ok, diag := compileBatch(dir, fmt.Sprintf("batch%d%s", bi, tag), names, nil)
-			mu.Lock()
-			st.gccRuns++
-			mu.Unlock()
-			if ok {
-				return
-			}
-			// Attribute every error to a program: by the file it is reported in, or,
-			// when that is the base code (an error inside a macro expansion), by the
-			// most recent line that names a program file ("p00004.c: In function ...").
-			culprits := map[int]string{}
-			byFile := map[string]int{}
-			for _, i := range ids {
-				byFile[pkgName(i)+".c"] = i
-			}
-			cur := -1
-			for _, ln := range strings.Split(diag, "\n") {
-				own := -1
-				if k := strings.Index(ln, ".c:"); k > 0 {
-					if i, ok := byFile[filepath.Base(ln[:k+2])]; ok {
-						own = i
-						cur = i
-					}
-				}
-				m := reGccDiag.FindStringSubmatch(ln)
-				if m == nil {
-					continue
-				}
-				who := own
-				if who < 0 {
-					who = cur
-				}
-				if who >= 0 {
-					if _, dup := culprits[who]; !dup {
-						culprits[who] = gccClass(m[5]) + "\x00" + m[0]
-					}
-				}
-			}
-			if len(ids) == 1 {
-				d := culprits[ids[0]]
-				if d == "" {
-					d = "gcc failed without a diagnostic in the program's file\x00" + firstLines(diag, 6)
-				}
-				rejected[ids[0]] = d
-				return
-			}
-			if len(culprits) == 0 || len(tag) > 24 {
-				// bisect
-				work(ids[:len(ids)/2], tag+"a")
-				work(ids[len(ids)/2:], tag+"b")
-				return
-			}
-			var rest []int
-			for _, i := range ids {
-				if d, bad := culprits[i]; bad {
-					rejected[i] = d
-				} else {
-					rest = append(rest, i)
-				}
-			}
-			work(rest, tag+"r")
-		}
-		work(batches[bi], "")
-		mu.Lock()
-		defer mu.Unlock()
-		completed++
-		for _, i := range batches[bi] {
-			s := e.progs[i]
-			st.gccChecked++
-			d, bad := rejected[i]
-			if !bad {
-				st.gccOK++
-				st.features["gcc-ok "+s.shape()]++
-				continue
-			}
-			st.gccBad++
-			parts := strings.SplitN(d, "\x00", 2)
-			st.diagClasses["gcc: "+parts[0]+" ("+s.structShape()+")"]++
-			st.features["gcc-rejected "+s.shape()]++
-			w := map[string]any{"kind": "program", "program": s.describe(), "source": s.text(), "package_name": pkgName(i), "gcc": parts[1]}
-			c.addFinding("gcc:"+parts[0]+":"+s.structShape(), fmt.Sprintf("gcc rejects the C generated for a program that check.Check accepts: %s; program: %s",
-				strings.TrimSpace(parts[1]), s.describe()), int64(i), w)
-		}
-	})
-	st.complete = int64(len(batches)) == completed && st.genRuns == int64(len(accepted)) && progUnitsDone == int64((len(e.progs)+progChunk-1)/progChunk)
-	if len(okIdx) > 0 {
-		st.samples = append(st.samples, "program accepted, C generated, gcc run: "+e.progs[okIdx[0]].describe())
-		st.samples = append(st.samples, "program accepted, C generated, gcc run: "+e.progs[okIdx[len(okIdx)/2]].describe())
-	}
-	return st
-}
 
 // compileBatch writes <tag>.c that defines the module macros and includes the
 // named generated files, and runs gcc on it.
